@@ -161,8 +161,15 @@ func VerifHarness_LimiterAccount() {
 		return t
 	}
 	zz.Replace("(time.Time).UnixNano", clock)
-	const window = 2 * time.Second
-	pps := 1 // 1 packet per second => at most 2 packets per 2 s window
+	// whole and fractional windows: the limit is rate x window, not rate x whole seconds
+	window := 2 * time.Second
+	switch zz.Choose(3) {
+	case 1:
+		window = 1500 * time.Millisecond
+	case 2:
+		window = 2500 * time.Millisecond
+	}
+	pps := 1 // 1 packet per second => at most 2 packets per 2 s window (1 per 1.5 s, 2 per 2.5 s)
 	bps := 0
 	byBytes := zz.Bool()
 	if byBytes {
@@ -187,8 +194,9 @@ func VerifHarness_LimiterAccount() {
 				bytesIn += sj
 			}
 		}
-		exceeded := packets > int64(pps)*2
-		bx := bytesIn > int64(bps)*2
+		// exact integer form of count/window_seconds > rate
+		exceeded := packets*int64(time.Second) > int64(pps)*int64(window)
+		bx := bytesIn*int64(time.Second) > int64(bps)*int64(window)
 		if byBytes {
 			exceeded = exceeded || bx
 		}
